@@ -162,16 +162,17 @@ def run(ctx):
         subs = subsets(n)
         for adj in itertools.product(subs, repeat=n):
             adj = [list(a) for a in adj]
+            full = ctx.tier == "thorough" or n < 3
             for a in range(n):
                 for k in (1, 2):
-                    for b in range(n):
+                    for b in (range(n) if full else sorted({a, (a + 1) % n})):
                         hcases.append((adj, [U([a], k), U([b])]))
             for a in range(n):
                 for b in range(n):
-                    if a != b:
+                    if a != b and (full or a < b):
                         hcases.append((adj, [U([a, b], 1), U([a, b], 0, True)]))
     n_exh_h = len(hcases)
-    for _ in range(ctx.budget(1200, 60000)):
+    for _ in range(ctx.budget(800, 60000)):
         n = rng.range(2, rng.choice([4, 6, 9]))
         acyclic = rng.chance(3, 4)
         adj = []
